@@ -37,6 +37,7 @@ CONSTANTS
   FaultKinds,   \* subset of {"EIO","panic"}: injected results
   MaxFaults,    \* fault budget per history
   InitWorld,    \* name of the initial backend tree
+  CloneProbes,  \* TRUE: clone-and-clunk probes after every transition (see CloneProbesOn)
   Fixed         \* set of findings repaired in the tree (deviations disabled)
 
 Nil == 0
@@ -937,9 +938,28 @@ ProbesOn(c) ==    \* evaluated on the primed state (used in action constraints o
      IN [c |-> c, req |-> q, calls |-> out.s.calls, reply |-> out.reply, closes |-> out.s.closes,
          paths |-> <<>>, ipanic |-> FALSE, okerr |-> IF out.reply.t = "Rlerror" THEN {out.reply.e} ELSE {},
          fen |-> FALSE, tree |-> <<>>]]
+\* Clone probes: for every bound fid (while a fid number is free) a zero-name walk onto the free
+\* number followed by the clunk of the clone.  The pair leaves the state as it found it, but makes
+\* the reference structure observable: which Files the clone's release closes (a clone that did
+\* not take its parent reference closes the parent's File early).
+Rec(c, q, out) == [c |-> c, req |-> q, calls |-> out.s.calls, reply |-> out.reply, closes |-> out.s.closes,
+                   paths |-> <<>>, ipanic |-> FALSE, okerr |-> IF out.reply.t = "Rlerror" THEN {out.reply.e} ELSE {},
+                   fen |-> FALSE, tree |-> <<>>]
+CloneProbesOn(c) ==
+  LET free == {g \in Fids : fidtab'[c][g] = Nil}
+      bound == {f \in Fids : fidtab'[c][f] # Nil}
+      Pair(f, g) == LET q1 == [Req("Twalk") EXCEPT !.fid = f, !.newfid = g]
+                        o1 == Handle(SX(c, [at |-> 0, kind |-> "none"], fidtab', ref', node', otype', dent', bf'), q1)
+                        q2 == [Req("Tclunk") EXCEPT !.fid = g]
+                        o2 == Handle([o1.s EXCEPT !.calls = <<>>, !.closes = <<>>], q2)
+                    IN <<Rec(c, q1, o1), Rec(c, q2, o2)>>
+      RECURSIVE All(_)
+      All(S) == IF S = {} THEN <<>> ELSE LET f == CHOOSE x \in S : \A y \in S : x <= y IN
+                                          Pair(f, CHOOSE g \in free : \A h \in free : g <= h) \o All(S \ {f})
+  IN IF free = {} \/ ~CloneProbes \/ Len(bf') + 1 > MaxFiles THEN <<>> ELSE All(bound)
 RECURSIVE ProbesFor(_)
 ProbesFor(cs) == IF cs = {} THEN <<>>
-                 ELSE LET c == CHOOSE c \in cs : \A d \in cs : c <= d IN ProbesOn(c) \o ProbesFor(cs \ {c})
+                 ELSE LET c == CHOOSE c \in cs : \A d \in cs : c <= d IN ProbesOn(c) \o CloneProbesOn(c) \o ProbesFor(cs \ {c})
 ProbesAfter == ProbesFor({c \in Conns : up'[c]})
 
 Next ==
